@@ -517,3 +517,25 @@ def nearly_equal_prices(rng: random.Random) -> Dict[str, Any]:
         b.dispose(t, part, rng.randint(50, 500), ttype=rng.choice(OUT_TYPES))
         held -= part
     return b.done(rng, shuffle=rng.random() < 0.5)
+
+
+def same_instant_transfer_chain(rng: random.Random, asset: str = "AAA") -> Dict[str, Any]:
+    """Two transfers at one instant under one unique id (legs of one on-chain transaction): the first overdraws account X, the
+    second, from an account that holds enough, refills X. Whether that is an overdraft depends on the order the legs are applied
+    in - the overdraft oracle calls it unspecified - but it cannot depend on what the unique ids are."""
+    b = HB(asset=asset, exchanges=EXCHANGES[:3], holders=HOLDERS[:1])
+    ho = HOLDERS[0]
+    x, y, z = [(e, ho) for e in EXCHANGES[:3]]
+    t = T(rng.randint(2016, 2022), rng.randint(1, 12), rng.randint(1, 28), rng.randint(0, 23))
+    b.acquire(t, 1, rng.randint(50, 500), ex=x[0])
+    b.acquire(t + timedelta(days=1), 10, rng.randint(50, 500), ex=y[0])
+    t += timedelta(days=rng.randint(2, 60))
+    legs = [b.move(t, 3, 3, rng.randint(50, 500), x, z), b.move(t, 5, rng.choice(("5", "4.99")), rng.randint(50, 500), y, x)]
+    if rng.random() < 0.5:
+        legs.reverse()
+        b.rows[-2], b.rows[-1] = b.rows[-1], b.rows[-2]
+    for leg in legs:
+        leg["uid"] = f"{asset}-onchain"
+    if rng.random() < 0.5:
+        b.dispose(t + timedelta(days=rng.randint(1, 30)), 1, rng.randint(50, 500), ex=x[0])
+    return b.done(rng, shuffle=False)
